@@ -28,7 +28,9 @@ Clauses(c) ==
                 \/ (exp.v # "syntax" /\ c.obs2.cls \notin {"ok", "jaqal_error", "parse_error"})
                 \/ (exp.v = "ok" /\ c.obs2.cls = "parse_error")
                 \* branch statements are grammatical but experimental: the builder refuses them
-                \/ (Experimental(c.toks) /\ c.obs2.cls # "jaqal_error"))
+                \/ (Experimental(c.toks) /\ c.obs2.cls # "jaqal_error")
+                \* a program has at most one register statement
+                \/ (TwoRegisters(c.toks) /\ c.obs2.cls # "jaqal_error"))
 
 Triggers(c) ==
   LET nbc == Cardinality({ i \in 1..Len(c.toks) : c.toks[i].t = "BC" }) IN
